@@ -716,7 +716,11 @@ impl<'a, 'r, 'o, 'd, 'i, 'c> Subject<'a, 'r, 'o, 'd, 'i, 'c> {
                 return None;
             }
             let numticks = self.take_while(b'`');
-            if numticks <= MAXBACKTICKS {
+            // Once a scan has reached the end of the input, `backticks` holds the
+            // position of the last run of every length and must stay that way: a
+            // later scan stops at its match and would otherwise leave the position
+            // of an earlier run here.
+            if !self.scanned_for_backticks && numticks <= MAXBACKTICKS {
                 self.backticks[numticks] = self.pos - numticks;
             }
             if numticks == openticklength {
